@@ -357,6 +357,19 @@ theorem init_Init (progs : List (List (Op U))) : Init (init progs : State U V) :
     obtain ⟨p, _, rfl⟩ := ht
     exact ⟨rfl, rfl⟩
 
+/-- any store at rest is an initial state: flags off, pools empty, flushLock free, the table names positions of the
+    file, threads idle -/
+theorem Init.of_rest {s : State U V} (h1 : s.lockAfterSwap = false) (h2 : s.skipPools = false)
+    (hn : s.next = []) (hc : s.cur = []) (hl : s.flushLock = none)
+    (htab : ∀ b p, getP s.table b = some p → p < s.file.length)
+    (hidle : ∀ t ∈ s.threads, t.pc = .idle ∧ t.out = []) : Init s := by
+  refine ⟨⟨h1, h2, htab, by simp [hc], by simp [hn], ?_, ?_, ?_⟩, hidle⟩
+  · intro _ b v h; rw [hc, getP_nil] at h; cases h
+  · intro i h; rw [hl] at h; cases h
+  · intro i t ht
+    have := (hidle t (List.mem_of_getElem? ht)).1
+    simp [TInv, this]
+
 /-- a call is running -/
 def Pc.running : Pc V → Bool
   | .idle => false
